@@ -15,7 +15,7 @@ CHECKS["C17"] = dict(
     engine="RZ3",
     technique="SMT (z3 regular-expression theory): language equivalence between python-debian's compiled dep5 matcher and the matcher of the REUSE.toml produced by the real converter, paths unbounded, dep5 globs enumerated to a bound",
     text="For every valid dep5 glob over {a . / * ? \\} up to length 4 (quick) / 5 (thorough) plus random longer ones, the real pipeline dep5 -> Copyright -> toml_from_dep5 -> ReuseTOML.from_toml is run and z3 decides, for ALL normalised project-relative paths of any length, that the dep5 matcher and the converted matcher accept the same paths; for two globs per paragraph and two paragraphs the last-match-wins attribution languages are compared the same way, and the attributed copyright/licence/precedence are compared on solver-produced witnesses through the two real reuse_info_of methods.",
-    note="Trusted: z3, re._parser, vf/re2z3.py, python-debian/tomlkit executed concretely. Outside: write-then-unlink ordering of the CLI command (planned XH obligation), whole lint report. Known findings: '?' wildcard, doubled escaped asterisk, LF, and the REUSE.toml matcher's own C05 findings inherited through '*/' -> '**/'.",
+    note="Trusted: z3, re._parser, vf/re2z3.py, python-debian/tomlkit executed concretely. The command body itself is explored with CrossHair over a path model whose write may fail (REUSE.toml is written before dep5 is removed; refusal without dep5). Outside: whole lint report, real OS failures. Known findings: '?' wildcard, doubled escaped asterisk, LF, and the REUSE.toml matcher's own C05 findings inherited through '*/' -> '**/'.",
 )
 
 CHECKS["C12"] = dict(
@@ -62,7 +62,7 @@ CHECKS["C13"] = dict(
 CHECKS["C03"] = dict(
     engine="RZ3+XH",
     technique="SMT (z3 regular expressions): language equality between the real ignore patterns and the statement's name language, names unbounded; symbolic execution (CrossHair + z3) of the real is_path_ignored / iter_files over a file-system and VCS model",
-    text="z3 decides for ALL file and directory names of any length that the union of the real ignore patterns (with .match semantics) accepts exactly the names the statement excludes (both inclusions; LF-free and LF-containing names separately). CrossHair explores every path of the real is_path_ignored for 27 names on both sides of each rule x 6 path kinds x parent x VCS answers x 3 include flags x subset membership against the statement's decision table, and of the real iter_files (os.walk replaced by a pruning-aware model) over a two-level tree with symbolic kinds and VCS answers, confirming that exactly the non-excluded files without excluded ancestors are yielded.",
+    text="z3 decides for ALL file and directory names of any length that the union of the real ignore patterns (with .match semantics) accepts exactly the names the statement excludes (both inclusions; LF-free and LF-containing names separately). CrossHair explores every path of the real is_path_ignored for 27 names on both sides of each rule x 6 path kinds x parent x VCS answers x 3 include flags x subset membership against the statement's decision table, of the real iter_files (os.walk replaced by a pruning-aware model) over a two-level tree with symbolic kinds and VCS answers (exactly the non-excluded files without excluded ancestors are yielded), of annotate --recursive's expansion over the same model (incl. a .license sibling), and of VCSStrategyGit's reading of git's NUL-separated answers for awkward names.",
     note="PARTIAL: Git's own answer (what the external git process reports for a .gitignore) is not encodable and is outside the claim; what is decided is that for any answer of the VCS layer the selection is right. Stubs: Path model, VCS model, os.walk model. Known findings: CAL-1.0/SHL-2.1 licence-text workaround names skipped everywhere; LF artefacts. Fixed: unescaped dot in the SPDX-document pattern (b49d0bc).",
 )
 
@@ -70,14 +70,14 @@ CHECKS["C18"] = dict(
     engine="XH",
     technique="SMT (z3 propositional): LicenseConcluded computed by the real code is equivalent to the conjunction of the file's expressions under every truth assignment; symbolic execution (CrossHair) of the real bill_of_materials against a reference tag-value reader",
     text="For ~2 800 (quick) / ~20 000 (thorough) enumerated and sampled expression sets (1-3 expressions, AND/OR nesting to depth 2-3, 'X+' and 'X WITH E' atoms) the real FileReport.generate computes LicenseConcluded and z3 decides that `conjunction != concluded` is unsatisfiable. CrossHair explores the real bill_of_materials for 1-2 files with names, copyright texts, licence lists and creator forms chosen from lists of awkward shapes and checks with a reference reader: one File section per report and no other, unique SPDXIDs matched by exactly one DESCRIBES each, fields equal to the report's, LicenseRef texts included, creator rendered.",
-    note="PARTIAL: SHA-1/MD5 are outside (hash loops; hashlib's contract), as are the covered-file set (C03) and the full tag-value grammar. Names are chosen from lists because the writer on symbolic strings exceeded every path budget. SPDXID distinctness is checked concretely through the real generate on near-identical names with identical checksums.",
+    note="PARTIAL: SHA-1/MD5 themselves are hashlib's contract (the chunked read around them is checked on 12 file sizes around the chunk boundaries); the covered-file set (C03) and the full tag-value grammar are outside. Names are chosen from lists because the writer on symbolic strings exceeded every path budget. SPDXID distinctness is checked concretely through the real generate on near-identical names with identical checksums.",
 )
 
 CHECKS["C14"] = dict(
     engine="RZ3+XH",
     technique="SMT (z3 regular expressions): pairwise commutation / language difference of the terminator groups of the real _END_PATTERN across hash seeds; symbolic execution (CrossHair) of report generation and REUSE.toml lookup under symbolic permutations of enumeration order",
-    text="The groups of the real _END_PATTERN are harvested; z3 decides for lines of any length which pairs commute, the module is imported under 8 (quick) / 24 (thorough) PYTHONHASHSEED values and, when two pattern texts differ, z3 produces a line on which the two languages differ, which is replayed through extract_reuse_info under both seeds. CrossHair confirms over all paths that ProjectReport.generate + _find_licenses give the same normalised report for every order of 3 files and several orders of the LICENSES listing, and that NestedReuseTOML gives the same result for permuted reuse_tomls (3 levels x 13 shapes).",
-    note="PARTIAL: real process scheduling (mp.Pool), pickling, the per-worker dep5 re-parse, real readdir order, cwd and root spelling are OS-level and outside the claim. Fixed: set-ordered _END_PATTERN (091a0b8) - the check reports it again if it returns.",
+    text="The groups of the real _END_PATTERN are harvested; z3 decides for lines of any length which pairs commute, the module is imported under 8 (quick) / 24 (thorough) PYTHONHASHSEED values and, when two pattern texts differ, z3 produces a line on which the two languages differ, which is replayed through extract_reuse_info under both seeds. CrossHair confirms over all paths that ProjectReport.generate + _find_licenses give the same normalised report for every order of 3 files and several orders of the LICENSES listing, that NestedReuseTOML gives the same result for permuted reuse_tomls (3 levels x 13 shapes), and for the root spelled '.', 'proj', '../proj', './proj/../proj' instead of absolute with nested directory names that sort before '.'.",
+    note="PARTIAL: real process scheduling (mp.Pool), pickling, the per-worker dep5 re-parse, real readdir order and the working directory are OS-level and outside the claim; root spelling is covered for the REUSE.toml hierarchy only. Fixed: set-ordered _END_PATTERN (091a0b8) - the check reports it again if it returns.",
 )
 
 CHECKS["C20"] = dict(
@@ -90,8 +90,8 @@ CHECKS["C20"] = dict(
 CHECKS["C02"] = dict(
     engine="XH+PYRE",
     technique="symbolic execution (CrossHair + z3) of the real find_spdx_tag and copyright reader with the real tag/terminator patterns executed by an exact regex interpreter (PYRE) on lines with free characters; window/snippet rule over an in-memory stream",
-    text="For each of ~60 distinct decorations harvested from the real comment-style table (single-line prefix, inline multi-line, first/middle/last line of a block, ASCII frame, tab and trailing blanks, XML attribute, reST field) and each tag kind (licence, contributor, five copyright spellings) CrossHair confirms over all paths that a value with one free character (ANY code point but line breaks; two free characters on a slice) is read back exactly. It also confirms that a tag line counts iff it lies inside the first 4096 bytes or the file holds a snippet marker (tag placed at every offset 4036..4103), and that a snippet marker is found at every offset around a 4096-byte block boundary.",
-    note="PYRE validated against re each run; concrete subjects go to the real compiled pattern. Known findings (carved out by predicates computed from the real terminator pattern, re-established from witnesses each run): value ending like a terminator of any style; value ending with the mirrored prefix; copyright keeps the closing frame; tag straddling the 4 KiB limit is truncated. Outside: >2 free characters, invalid UTF-8, CRLF folding.",
+    text="For each of ~60 distinct decorations harvested from the real comment-style table (single-line prefix, inline multi-line, first/middle/last line of a block, ASCII frame, tab and trailing blanks, XML attribute, reST field) and each tag kind (licence, contributor, five copyright spellings) CrossHair confirms over all paths that a value with one free character (ANY code point but line breaks; two free characters on a slice) is read back exactly. It also confirms that a tag line counts iff it lies inside the first 4096 BYTES (one- and two-byte filler) or the file holds a snippet marker (tag placed at every offset 4036..4103), that a snippet marker is found at every offset around plausible read-block boundaries (8192, 65536; thorough: seven sizes up to 1 MiB), that the other tag kinds stay empty, and that copyright notices separated by CR/VT/FF/FS/GS/RS/NEL/LS/PS are read one per line.",
+    note="PYRE validated against re each run; concrete subjects go to the real compiled pattern. Known findings (carved out by predicates computed from the real terminator pattern, re-established from witnesses each run): value ending like a terminator of any style; value ending with the mirrored prefix; copyright keeps the closing frame; tag straddling the 4 KiB limit is truncated; a tag value containing 'Copyright ' / '© ' is also read as a notice. Outside: >2 free characters, invalid UTF-8, CRLF folding.",
 )
 
 CHECKS["C07"] = dict(
